@@ -372,6 +372,11 @@ def abstraction_corpus():
                 [{"x": 2}, {"x": 1, "y": 1}], "abstraction:elif-chain-one-draw", sup))
     out.append((prog([("if", [(("atom", v("d"), ">", c(25)), [inc("x", 1), inc("y", 1)])], [inc("y", 3)])]),
                 [{"x": 1, "y": 1}, {"y": 2}], "abstraction:else", sup))
+    # the goal, or a later assignment, multiplies the abstracted draw with a variable updated under the coin
+    out.append((prog([("if", [(le(15), [inc("x", 1)])], None)]),
+                [{"x": 1, "d": 1}, {"x": 1}], "abstraction:goal-mentions-abstracted-draw", sup))
+    out.append((prog([("if", [(le(15), [inc("x", 1)])], None), ("assign", "y", P.det(("mul", v("d"), v("x"))))]),
+                [{"y": 1}], "abstraction:later-assignment-reads-abstracted-draw", sup))
     # the guarded assignment reads a COPY (descendant) of the abstracted draw: the coin is not independent of it
     addv = lambda z, w: ("assign", z, P.det(("add", v(z), v(w))))
     out.append((prog([("assign", "y", P.det(v("d"))), ("if", [(le(15), [addv("x", "y")])], None)]),
